@@ -3,6 +3,7 @@
 #pragma once
 #include "pbt/pbt.hpp"
 #include "lib/zcklib.hpp"
+#include "ref/zckref.hpp"
 #include <zdict.h>
 
 namespace gen {
@@ -125,5 +126,73 @@ static inline std::vector<size_t> rhistory(Ctx &c) {
     return r;
 }
 static inline std::string sizes_str(const std::vector<size_t> &v) { std::string s; for (auto x : v) s += std::to_string(x) + " "; return s; }
+
+// ---- small chunked files with a known chunk table ------------------------------------------
+// A valid file whose chunk table is known exactly: plain[0] = dictionary bytes, plain[1..] =
+// data chunks; D = concatenation of the data chunks.  Written either by the library (manual
+// chunking, end_chunk after every chunk) or by the reference writer; parsed by the reference.
+struct ZFile {
+    Bytes file; ref::Header h; std::vector<Bytes> plain; Bytes D; std::string desc;
+    int comp = 0; bool by_ref = false;
+    size_t nchunks() const { return h.entries.size(); }                 // incl. dictionary entry
+    size_t off(size_t i) const { return h.total_size + (size_t)h.starts[i]; }   // file offset of chunk i
+    size_t clen(size_t i) const { return (size_t)h.entries[i].comp_len; }
+};
+struct ZFileOpts {
+    size_t max_chunks = 8, max_chunk = 3000; int force_comp = -1;       // -1 any, else ZCK_COMP_*
+    bool allow_dict = true, allow_uncomp = true, allow_dups = true, allow_ref_writer = true, allow_empty = true;
+    int force_chunk_hash = -1;
+};
+static inline Bytes chunk_content(Ctx &c, size_t maxlen) {
+    uint64_t k = c.draw(5); size_t n = 1 + (k == 0 ? c.draw(3) : k <= 2 ? c.draw(std::min<size_t>(maxlen, 200) - 1) : c.draw(maxlen - 1));
+    uint64_t seed = c.draw(0xffff); Bytes b(n);
+    switch (c.draw(3)) {
+    case 0: fill_random(b.data(), n, seed); break;                                         // incompressible
+    case 1: { pbt::Rng r(seed); for (auto &x : b) x = "abcd\n"[r.next() % 5]; break; }     // compressible
+    case 2: { pbt::Rng r(seed); uint8_t v = (uint8_t)r.next(); size_t run = 0; for (auto &x : b) { if (!run) { run = 1 + r.below(64); v = (uint8_t)r.next(); } x = v; run--; } break; }
+    default: std::fill(b.begin(), b.end(), (uint8_t)seed); break;
+    }
+    return b;
+}
+static inline ZFile zfile(Ctx &c, const ZFileOpts &o = ZFileOpts()) {
+    ZFile z;
+    z.comp = o.force_comp >= 0 ? o.force_comp : (c.chance(2, 3) ? ZCK_COMP_ZSTD : ZCK_COMP_NONE);
+    size_t n = o.allow_empty ? c.draw(o.max_chunks) : 1 + c.draw(o.max_chunks - 1);
+    Bytes dict;
+    if (o.allow_dict && c.rarely(3)) { dict.resize(1 + c.draw(600)); if (c.boolean()) fill_random(dict.data(), dict.size(), c.draw(999)); else { pbt::Rng r(c.draw(999)); for (auto &x : dict) x = "abcd\n"[r.next() % 5]; } }
+    std::vector<Bytes> chunks;
+    for (size_t i = 0; i < n; i++) {
+        if (o.allow_dups && i > 0 && c.rarely(5)) chunks.push_back(chunks[c.pick(i)]);
+        else chunks.push_back(chunk_content(c, o.max_chunk));
+    }
+    int full_hash = c.boolean() ? (int)c.draw(3) : -1, chunk_hash = o.force_chunk_hash >= 0 ? o.force_chunk_hash : (c.boolean() ? (int)c.draw(3) : -1);
+    bool uncomp = o.allow_uncomp && c.rarely(5);
+    if (uncomp && (chunk_hash == 0 || chunk_hash == 3 || chunk_hash == -1)) chunk_hash = 1 + (int)c.draw(1);
+    z.by_ref = o.allow_ref_writer && c.rarely(3);
+    for (auto &ch : chunks) z.D.insert(z.D.end(), ch.begin(), ch.end());
+    if (z.by_ref) {
+        ref::WriteSpec w; w.comp = z.comp; w.hash_type = full_hash < 0 ? 1 : full_hash; w.chunk_hash_type = chunk_hash < 0 ? 3 : chunk_hash;
+        w.uncomp_flag = uncomp; w.dict = dict; w.chunks = chunks; w.level = 1 + (int)c.draw(5);
+        z.file = ref::write(w).file;
+    } else {
+        lib::WCfg w; w.comp = z.comp; w.full_hash = full_hash; w.chunk_hash = chunk_hash; w.uncomp = uncomp; w.dict = dict; w.manual = true;
+        if (z.comp == ZCK_COMP_ZSTD && c.boolean()) w.level = (int)c.draw(9);
+        std::vector<lib::WOp> ops;
+        for (auto &ch : chunks) { ops.push_back({false, ch.size()}); ops.push_back({true, 0}); }
+        lib::WResult wr = lib::write_file(w, z.D, ops);
+        if (!wr.ok) c.fail("sample-write", "library failed to write a plain sample: " + wr.cfg_err + wr.err);
+        z.file = wr.file;
+    }
+    ref::ParseResult pr = ref::parse(z.file);
+    if (!pr.ok || !pr.h.meta_ok) c.fail("sample-parse", "reference rejects a freshly written sample: " + pr.reason + pr.h.meta_reason);
+    z.h = pr.h;
+    if (z.h.entries.size() != chunks.size() + 1) c.fail("sample-chunks", "sample has " + std::to_string(z.h.entries.size()) + " index entries, expected " + std::to_string(chunks.size() + 1));
+    z.plain.push_back(dict); for (auto &ch : chunks) z.plain.push_back(ch);
+    std::ostringstream d; d << (z.by_ref ? "ref-written" : "lib-written") << " comp=" << (z.comp == ZCK_COMP_ZSTD ? "zstd" : "none") << " dict=" << dict.size()
+      << " fullhash=" << z.h.hash_type << " chunkhash=" << z.h.chunk_hash_type << (uncomp ? " uncomp-flag" : "") << " chunks=[";
+    for (size_t i = 0; i < chunks.size() && i < 16; i++) d << (i ? "," : "") << chunks[i].size() << ">" << z.h.entries[i + 1].comp_len;
+    d << "]"; z.desc = d.str();
+    return z;
+}
 
 } // namespace gen
